@@ -117,6 +117,27 @@ def c_escape(s):
     return s.replace('"', '\\"')
 
 
+UNI_DIGITS = ["\u0660\u0661\u0662\u0663\u0664\u0665\u0666\u0667\u0668\u0669", "\uff10\uff11\uff12\uff13\uff14\uff15\uff16\uff17\uff18\uff19",
+              "\u0966\u0967\u0968\u0969\u096a\u096b\u096c\u096d\u096e\u096f"]
+
+
+def odd_number(rng, n):
+    """a decimal number spelled so that int() reads it but a field of ASCII digits does not: digits of another script, a
+    sign, an underscore between digits, a hex / float spelling"""
+    s = str(n)
+    r = rng.randrange(6)
+    if r <= 1:
+        d = rng.choice(UNI_DIGITS)
+        return "".join(d[int(c)] for c in s)
+    if r == 2:
+        return "+" + s
+    if r == 3 and len(s) >= 2:
+        return s[0] + "_" + s[1:]
+    if r == 4:
+        return s + ".0"
+    return "0x%x" % n
+
+
 def write_pte_table(path, table, rng=None, hlog_fields=None, style=0):
     """table: [(pattern, message, params)].  Returns nothing; the oracle keeps `table`."""
     L = ["// generated by the verification harness", "struct pte_entry_struct", "{", "  const char* pte;", "};", "",
@@ -142,6 +163,9 @@ def write_pte_table(path, table, rng=None, hlog_fields=None, style=0):
                 L += [start, "{"]
         ps = ", ".join(str(p) for p in params) if not (rng and rng.random() < 0.3) else ",".join(str(p) for p in params)
         sp = " " * (rng.randrange(0, 3) if rng else 1)
+        if rng and style & 128 and rng.random() < 0.3:
+            # almost an entry, with the pattern of the real one that follows: its line-number field is no run of ASCII digits
+            L.append('  { "%s", "near miss %d", {}, "near%d.cpp", %s },' % (pat, k, k % 7, odd_number(rng, 100 + k)))
         L.append('  {%s"%s",%s"%s", {%s}, "file%d.cpp", %d },' % (sp, pat, sp, c_escape(msg), ps, k % 7, 100 + k))
         if rng and rng.random() < 0.05:
             L.append("  // a comment line inside the table")
@@ -229,6 +253,9 @@ def hlog_table_lines(fields, style=0):
             L += ["};", "", "// extension", start.replace("mex_hlog_fields[", "mex_hlog_fields_ext[") + (" {" if style & 2 else "")]
             if not style & 2:
                 L.append("{")
+        if style & 128 and k % 4 == 2:
+            # almost a declaration: a size that is neither 1 nor 2 / a size in digits of another script
+            L.append('  { %s, "hl_near_miss_%d" },' % (["3", "\uff12", "0", "+1", "\u0661"][k % 5], k))
         L.append('  { %d, "%s" }%s ' % (size, name, "" if (last and style & 4) else ","))
         if style & 8 and k % 5 == 1:
             L.append('  // retired \x0c  { 2, "hl_retired_%d" },' % k)          # commented out: not a declaration
@@ -280,9 +307,17 @@ def write_string_file(path, strings, rng=None):
     L = ["#FSP_TRACE_v2|||generated by the verification harness|||BUILD:fx"]
     for h, msg, loc in strings:
         lead = " " * (rng.randrange(0, 3) if rng else 0)
+        if rng and rng.random() < 0.12:
+            # almost a trace string, in FRONT of the real one with the same hash (the first exact match decides)
+            L.append("%s%s||NEAR MISS exact %d||near.cpp(%d)" % (lead, odd_number(rng, h), len(L), len(L)))
         L.append("%s%d||%s||%s" % (lead, h, msg, loc))
         if rng and rng.random() < 0.05:
             L.append("not a trace string line")
+    if rng and strings and rng.random() < 0.5:
+        # ... and at the END of the file, agreeing with real hashes modulo 100000 (the last partial match decides)
+        for _ in range(rng.choice([1, 2, 4])):
+            h = rng.choice(strings)[0] % 100000 + 100000 * rng.randrange(0, 42949)
+            L.append("%s||NEAR MISS partial %d||near.cpp(%d)" % (odd_number(rng, h), len(L), len(L)))
     with open(path, "w", encoding="utf-8") as f:
         f.write("\n".join(L) + "\n")
 
